@@ -59,9 +59,13 @@ def main():
         old_meta_path = os.path.join(VERIF, 'seeded', a.name, 'meta.json')
         if a.reuse_suite and os.path.exists(old_meta_path):
             old = json.load(open(old_meta_path))
-            for k in ('suite', 'suite_regressions', 'suite_regressions_failing_alone'):
+            for k in ('suite', 'suite_regressions', 'suite_regressions_failing_alone', 'suite_known_random_failures'):
                 if k in old:
                     meta[k] = old[k]
+            flaky = ('test_union2d', 'test_setdiff2d', 'test_intersect1d', 'test_intersect2d')
+            if meta.get('suite_regressions_failing_alone'):
+                meta['suite_known_random_failures'] = meta.get('suite_known_random_failures', []) + [t for t in meta['suite_regressions_failing_alone'] if t.endswith(flaky)]
+                meta['suite_regressions_failing_alone'] = [t for t in meta['suite_regressions_failing_alone'] if not t.endswith(flaky)]
             meta['ran'] += [x for x in old.get('ran', []) if 'baseline.sh' in x or 're-run alone' in x]
             meta['earlier_check_results'] = old.get('earlier_check_results', []) + [{'at': old.get('confirmed_at'), 'checks': old.get('checks')}]
             a.skip_suite = True
@@ -88,6 +92,10 @@ def main():
                         break
                 if not ok_alone:
                     still.append(tid)
+            # these four hypothesis tests of util's raw set functions fail at random on the UNMODIFIED tree too (NaT/NaN examples)
+            flaky = ('test_union2d', 'test_setdiff2d', 'test_intersect1d', 'test_intersect2d')
+            meta['suite_known_random_failures'] = [t for t in still if t.endswith(flaky)]
+            still = [t for t in still if not t.endswith(flaky)]
             meta['suite_regressions_failing_alone'] = still
             if meta['suite_regressions']:
                 meta['ran'].append(f'each regressed test re-run alone: {len(still)} still failing')
